@@ -303,6 +303,28 @@ def acquire_run_slot(tier='quick'):
             pass
 
 
+def _violations_of_last_run():
+    """Failures recorded by the engines' last run (seq.run / lockstep.run_cases), as Violation objects."""
+    out = []
+    try:
+        from . import seq
+        m = seq.LAST_RUN
+        if m and (m.get('failures') or m.get('crashes')):
+            out += seq.violations_from(m)
+    except Exception:
+        pass
+    try:
+        from . import lockstep
+        r = lockstep.LAST_RUN
+        if r:
+            out += [Violation(k, what, {'case': c}) for k, what, c in r.get('violations', [])]
+            out += [Violation('crash:' + str(k), 'squid crashed/asserted during case %s: %s' % (k, what), {'case': c})
+                    for k, what, c in r.get('crashes', [])]
+    except Exception:
+        pass
+    return out
+
+
 def main(argv=None):
     argv = list(sys.argv[1:] if argv is None else argv)
     if not argv:
@@ -328,6 +350,7 @@ def main(argv=None):
         seed = 0
     slot = acquire_run_slot(tier if not replay_file else 'quick')
     ctx = Ctx(pid, tier, seed)
+    mod = None
     try:
         mod = load_check(pid)
         if replay_file:
@@ -346,6 +369,17 @@ def main(argv=None):
                                                    'traces_validated_against_impl', 'bound_completed') if k in cov)))
         return rc
     except HarnessError as e:
+        # A vacuity guard describes a clean run.  When it fires on a run that has already recorded failures
+        # (a changed tree can abort or reject so many cases that the expected outcome classes never show up),
+        # the failures are the news: report them instead of hiding them behind a harness error.
+        if 'vacuity guard' in str(e) and not replay_file:
+            vio = _violations_of_last_run()
+            if vio:
+                print('# %s: vacuity guard fired on a run with recorded failures (%s); reporting the failures' % (pid, str(e)[:200]))
+                res = Result(getattr(mod, 'LEVEL', 'exploration'), {}, vio, [])
+                if report(ctx, res, write_ev=False) == 1:
+                    return 1
+                # (only known findings: the guard's complaint stands)
         print('HARNESS-ERROR %s: %s' % (pid, e), file=sys.stderr)
         return 2
     except Exception:
